@@ -1,4 +1,5 @@
 import QProofs.C05
+import QGen.C05
 import QProps.C04
 /-!
 # C05 — physical projection (Dykstra): property theorems about `QModel.C05`
@@ -9,8 +10,12 @@ decides which projection is `P1` and which is `P2`).  The two constraint sets ar
 parameter vectors and the projections are characterised by their variational inequality (`IsProj`), which QProps.C04
 proves for the equality projections and (`_partial`) for eigenvalue clipping.
 
-**Not proved (every theorem here is therefore partial w.r.t. the property text):** convergence of the iteration
-(Boyle–Dykstra), hence termination below any `eps > 0` and `eps`-accuracy of the stopped iterate.
+**Proved about convergence** (section C05.7/8): the Boyle–Dykstra potential decreases by at least the stopping value as coded in
+every sweep, hence the iterates stay bounded, the stopping values are summable, the loop as coded TERMINATES by its criterion
+within `n + 1` sweeps whenever `n·eps > ‖x₀ − z‖²` for a physical `z` (`dyk_terminates`), returns the iterate after
+min(first stop index, max_iteration − 1) + 1 sweeps (`dyk_run_returns_min`), and the returned point is physical up to `√eps`
+(`dyk_returned_physical`).  **Not proved:** that the stopped iterate is within a stated distance of the NEAREST physical
+point (strong convergence of Dykstra's sequence, Boyle–Dykstra); per run this is certified by the oracle.
 -/
 open Finset
 namespace QM.C05
@@ -126,10 +131,6 @@ theorem dyk_stop_zero_fixed (P1 P2 : Vec K N → Vec K N) (s : St K N)
   rw [hy] at hx'
   exact hx'
 
-/-- a map is the metric projection onto the set `A` (characterised by membership + variational inequality) -/
-def IsProj (A : Vec K N → Prop) (P : Vec K N → Vec K N) : Prop :=
-  ∀ u, A (P u) ∧ ∀ z, A z → ip1 (u.sub (P u)) (z.sub (P u)) ≤ 0
-
 /-- C05.3 `dyk_fixed_is_projection`: at a fixed point of the sweep the point `x` lies in both sets and satisfies the
 variational inequality of the metric projection of `x_0` onto the intersection. -/
 theorem dyk_fixed_is_projection (A B : Vec K N → Prop) (P1 P2 : Vec K N → Vec K N)
@@ -216,6 +217,164 @@ theorem dyk_fix_physical (eps : K) (heps : 0 < eps) (P1 P2 : Nat → Vec K N →
   rw [if_pos this, hs]
   simp
 
+/-- C05.7 one sweep decreases the Boyle–Dykstra potential by at least the stopping value as coded -/
+theorem dyk_lyapunov_step (A B : Vec K N → Prop) (P1 P2 : Vec K N → Vec K N) (h1 : IsProj A P1) (h2 : IsProj B P2)
+    (s : St K N) (y z : Vec K N) (hp : NormalAt A y s.p) (hq : NormalAt B s.x s.q) :
+    lyap z (sweep P1 P2 s).2 (sweep P1 P2 s).1 + errVal s (sweep P1 P2 s).1 ≤ lyap z y s := by
+  have hn := sweep_normal A B P1 P2 h1 h2 s
+  have r1 := hp _ hn.1
+  have r2 := hq _ hn.2.1
+  rw [lyap_identity P1 P2 s y z]; linarith
+
+/-- C05.7 whole run: for every point `z` of the intersection, potential after `k` sweeps + all stopping values so far
+≤ ‖x₀ − z‖²; the corrections stay normal to their sets -/
+theorem dyk_lyapunov_iter (A B : Vec K N → Prop) (P1 P2 : Nat → Vec K N → Vec K N)
+    (h1 : ∀ k, IsProj A (P1 k)) (h2 : ∀ k, IsProj B (P2 k)) (x0 z : Vec K N) (k : Nat) :
+    NormalAt A (iterSY P1 P2 x0 k).2 (iterSY P1 P2 x0 k).1.p ∧
+    NormalAt B (iterSY P1 P2 x0 k).1.x (iterSY P1 P2 x0 k).1.q ∧
+    lyap z (iterSY P1 P2 x0 k).2 (iterSY P1 P2 x0 k).1 + ∑ j ∈ Finset.range k, errAt P1 P2 x0 j ≤ sqd1 x0 z := by
+  induction k with
+  | zero =>
+    refine ⟨fun w _ => by simp [iterSY, ip1_zero_left], fun w _ => by simp [iterSY, ip1_zero_left], ?_⟩
+    simp [iterSY, lyap, ip1_zero_left]
+  | succ k ih =>
+    obtain ⟨hp, hq, hl⟩ := ih
+    have hn := sweep_normal A B (P1 k) (P2 k) (h1 k) (h2 k) (iterSY P1 P2 x0 k).1
+    have hs := dyk_lyapunov_step A B (P1 k) (P2 k) (h1 k) (h2 k) (iterSY P1 P2 x0 k).1 (iterSY P1 P2 x0 k).2 z hp hq
+    refine ⟨hn.2.2.1, hn.2.2.2, ?_⟩
+    rw [Finset.sum_range_succ]
+    have : errAt P1 P2 x0 k = errVal (iterSY P1 P2 x0 k).1 (sweep (P1 k) (P2 k) (iterSY P1 P2 x0 k).1).1 := rfl
+    rw [this]
+    show lyap z (sweep (P1 k) (P2 k) (iterSY P1 P2 x0 k).1).2 (sweep (P1 k) (P2 k) (iterSY P1 P2 x0 k).1).1 + _ ≤ _
+    linarith
+
+/-- C05.7 iterates stay in the ball around any physical point through the start: ‖x_k − z‖² ≤ ‖x₀ − z‖²,
+and the stopping values are summable: Σ_{j<k} err_j ≤ ‖x₀ − z‖² -/
+theorem dyk_bounded_summable (A B : Vec K N → Prop) (P1 P2 : Nat → Vec K N → Vec K N)
+    (h1 : ∀ k, IsProj A (P1 k)) (h2 : ∀ k, IsProj B (P2 k)) (x0 z : Vec K N) (hzA : A z) (hzB : B z) (k : Nat) :
+    sqd1 (iterSY P1 P2 x0 k).1.x z ≤ sqd1 x0 z ∧ ∑ j ∈ Finset.range k, errAt P1 P2 x0 j ≤ sqd1 x0 z := by
+  obtain ⟨hp, hq, hl⟩ := dyk_lyapunov_iter A B P1 P2 h1 h2 x0 z k
+  have hge := lyap_ge A B z _ _ hzA hzB hp hq
+  have hs : 0 ≤ ∑ j ∈ Finset.range k, errAt P1 P2 x0 j := Finset.sum_nonneg fun j _ => errVal_nonneg _ _
+  have h0 : 0 ≤ sqd1 (iterSY P1 P2 x0 k).1.x z := by
+    rw [sqd1_eq]; exact Finset.sum_nonneg fun i _ => mul_self_nonneg _
+  constructor <;> linarith
+
+/-- C05.7 the stopping criterion fires: if `n·eps > ‖x₀ − z‖²` for some physical `z`, one of the sweeps `1 … n` has a
+stopping value below `eps` -/
+theorem dyk_stop_exists (A B : Vec K N → Prop) (P1 P2 : Nat → Vec K N → Vec K N)
+    (h1 : ∀ k, IsProj A (P1 k)) (h2 : ∀ k, IsProj B (P2 k)) (x0 z : Vec K N) (hzA : A z) (hzB : B z)
+    (eps : K) (n : Nat) (hn : sqd1 x0 z < (n : K) * eps) :
+    ∃ j, 1 ≤ j ∧ j ≤ n ∧ errAt P1 P2 x0 j < eps := by
+  by_contra hcon
+  simp only [not_exists, not_and, not_lt] at hcon
+  have hsum := (dyk_bounded_summable A B P1 P2 h1 h2 x0 z hzA hzB (n + 1)).2
+  have hlow : (n : K) * eps ≤ ∑ j ∈ Finset.range (n + 1), errAt P1 P2 x0 j := by
+    rw [Finset.sum_range_succ']
+    have h0 : 0 ≤ errAt P1 P2 x0 0 := errVal_nonneg _ _
+    have : (n : K) * eps ≤ ∑ j ∈ Finset.range n, errAt P1 P2 x0 (j + 1) := by
+      have : ∑ _j ∈ Finset.range n, eps ≤ ∑ j ∈ Finset.range n, errAt P1 P2 x0 (j + 1) :=
+        Finset.sum_le_sum fun j hj => hcon (j + 1) (by omega) (by have := Finset.mem_range.1 hj; omega)
+      simpa using this
+    linarith
+  linarith
+
+/-- C05.6 stopping-rule glue: the routine returns the iterate after `K+1` sweeps where `K` is the smaller of
+`max_iteration − 1` and the first sweep index `≥ 1` whose stopping value is `< eps` -/
+theorem dyk_run_returns_min (eps : K) (P1 P2 : Nat → Vec K N → Vec K N) (maxIter : Nat) (x0 : Vec K N)
+    (o : Out K N) (h : run eps P1 P2 maxIter x0 = some o) :
+    o.x = (iterSY P1 P2 x0 (o.k + 1)).1.x ∧ o.k + 1 ≤ maxIter ∧
+      (∀ j, j < o.k → ¬ StopAt eps P1 P2 x0 j) ∧ (StopAt eps P1 P2 x0 o.k ∨ o.k + 1 = maxIter) := by
+  unfold run at h
+  split at h
+  · cases h
+  · injection h with h; subst h
+    obtain ⟨r, rfl⟩ : ∃ r, maxIter = r + 1 := ⟨maxIter - 1, by omega⟩
+    have e0 : (⟨x0, Vec.zero, Vec.zero⟩ : St K N) = (iterSY P1 P2 x0 0).1 := rfl
+    rw [e0]
+    obtain ⟨a1, a2, a3, a4, a5⟩ := loop_iter eps P1 P2 x0 r 0 []
+    refine ⟨a3, by omega, ?_, ?_⟩
+    · intro j hj hs
+      have := a4 j (Nat.zero_le _) hj
+      rw [(stopB_errOpt eps P1 P2 x0 j).2 hs] at this
+      cases this
+    · rcases a5 with h | h
+      · exact Or.inl ((stopB_errOpt eps P1 P2 x0 _).1 h)
+      · right; change _ + 1 = r + 1; rw [h]; omega
+
+/-- C05.7 termination of the loop as coded: if a physical point `z` exists and `n·eps > ‖x₀ − z‖²`, then with
+`max_iteration ≥ n + 2` the routine stops BY THE CRITERION (no max-iteration warning) after at most `n + 1` sweeps -/
+theorem dyk_terminates (A B : Vec K N → Prop) (P1 P2 : Nat → Vec K N → Vec K N)
+    (h1 : ∀ k, IsProj A (P1 k)) (h2 : ∀ k, IsProj B (P2 k)) (x0 z : Vec K N) (hzA : A z) (hzB : B z)
+    (eps : K) (n : Nat) (hn : sqd1 x0 z < (n : K) * eps) (maxIter : Nat) (hm : n + 2 ≤ maxIter)
+    (o : Out K N) (h : run eps P1 P2 maxIter x0 = some o) :
+    o.k ≤ n ∧ StopAt eps P1 P2 x0 o.k ∧ o.warned = false := by
+  obtain ⟨j, hj1, hj2, hj3⟩ := dyk_stop_exists A B P1 P2 h1 h2 x0 z hzA hzB eps n hn
+  obtain ⟨_, b2, b3, b4⟩ := dyk_run_returns_min eps P1 P2 maxIter x0 o h
+  have hk : o.k ≤ j := by
+    by_contra hlt
+    exact b3 j (by omega) ⟨hj1, hj3⟩
+  have hstop : StopAt eps P1 P2 x0 o.k := by
+    rcases b4 with h | h
+    · exact h
+    · omega
+  refine ⟨by omega, hstop, ?_⟩
+  have hw := (dyk_history_returned_partial eps P1 P2 maxIter x0 o h).2.2.2.2.2
+  cases hwv : o.warned with
+  | false => rfl
+  | true => have := hw.1 hwv; omega
+
+/-- C05.8 accuracy implied by the stopping threshold, one sweep: the new `x` lies in the second set, the intermediate `y` in the
+first, and their squared distance is at most the stopping value (`x' − y' = q − q'`). -/
+theorem dyk_sweep_gap (A B : Vec K N → Prop) (P1 P2 : Vec K N → Vec K N) (h1 : IsProj A P1) (h2 : IsProj B P2)
+    (s : St K N) :
+    A (sweep P1 P2 s).2 ∧ B (sweep P1 P2 s).1.x ∧
+      sqd1 (sweep P1 P2 s).1.x (sweep P1 P2 s).2 ≤ errVal s (sweep P1 P2 s).1 := by
+  refine ⟨(h1 _).1, (h2 _).1, ?_⟩
+  rw [sqd1_eq, errVal_eq]
+  apply Finset.sum_le_sum; intro i _
+  have e : (sweep P1 P2 s).1.x.get i - (sweep P1 P2 s).2.get i = s.q.get i - (sweep P1 P2 s).1.q.get i := by
+    simp only [sweep, sub_get, add_get]; ring
+  rw [e]
+  nlinarith [mul_self_nonneg (s.p.get i - (sweep P1 P2 s).1.p.get i)]
+
+/-- C05.8 the returned point is physical up to the accuracy implied by `eps_proj_physical`: when the routine stops by the
+criterion, the returned `x` lies in the set of the second projection and within `√eps` (squared distance `< eps`) of a point
+of the set of the first projection. -/
+theorem dyk_returned_physical (A B : Vec K N → Prop) (P1 P2 : Nat → Vec K N → Vec K N)
+    (h1 : ∀ k, IsProj A (P1 k)) (h2 : ∀ k, IsProj B (P2 k)) (eps : K) (maxIter : Nat) (x0 : Vec K N)
+    (o : Out K N) (h : run eps P1 P2 maxIter x0 = some o) (hs : StopAt eps P1 P2 x0 o.k) :
+    B o.x ∧ ∃ y, A y ∧ sqd1 o.x y < eps := by
+  obtain ⟨hx, _, _, _⟩ := dyk_run_returns_min eps P1 P2 maxIter x0 o h
+  have hg := dyk_sweep_gap A B (P1 o.k) (P2 o.k) (h1 o.k) (h2 o.k) (iterSY P1 P2 x0 o.k).1
+  have e : (iterSY P1 P2 x0 (o.k + 1)) = sweep (P1 o.k) (P2 o.k) (iterSY P1 P2 x0 o.k).1 := rfl
+  rw [hx, e]
+  exact ⟨hg.2.1, _, hg.1, lt_of_le_of_lt hg.2.2 hs.2⟩
+
+theorem isProj_univ : IsProj (fun _ : Vec K N => True) id := by
+  intro u; refine ⟨trivial, fun z _ => ?_⟩
+  simp [ip1]
+
+/-! ### tie to the source: definitions regenerated from qoperation.py on every run (QGen.C05) equal the hand model -/
+
+/-- the sweep bodies of `calc_proj_physical` and `calc_proj_physical_with_var`, as translated from the source on this run,
+are the model's `sweepMode` (then-branch = `"eq_ineq"`, else-branch = any other order), at both levels. -/
+theorem gen_sweep_bodies (Peq Pineq : Vec K N → Vec K N) (x p q : Vec K N) :
+    (QGen.C05.objThen Peq Pineq x p q =
+        ((sweepMode true Peq Pineq ⟨x, p, q⟩).2, (sweepMode true Peq Pineq ⟨x, p, q⟩).1.p,
+         (sweepMode true Peq Pineq ⟨x, p, q⟩).1.x, (sweepMode true Peq Pineq ⟨x, p, q⟩).1.q)) ∧
+    (QGen.C05.objElse Peq Pineq x p q =
+        ((sweepMode false Peq Pineq ⟨x, p, q⟩).2, (sweepMode false Peq Pineq ⟨x, p, q⟩).1.p,
+         (sweepMode false Peq Pineq ⟨x, p, q⟩).1.x, (sweepMode false Peq Pineq ⟨x, p, q⟩).1.q)) ∧
+    QGen.C05.varThen Peq Pineq x p q = QGen.C05.objThen Peq Pineq x p q ∧
+    QGen.C05.varElse Peq Pineq x p q = QGen.C05.objElse Peq Pineq x p q := ⟨rfl, rfl, rfl, rfl⟩
+
+/-- the stopping value, the `k ≥ 1` guard, the `<` comparison and the branch literal of the source are those of the model. -/
+theorem gen_stop_rule (eps e : K) (s s' : St K N) (P1 P2 : Nat → Vec K N → Vec K N) (k : Nat) :
+    QGen.C05.stopValue s.p s'.p s.q s'.q = errVal s s' ∧ stopB eps (some e) = QGen.C05.stops e eps ∧
+    (recOf P1 P2 k s).err = (if QGen.C05.guardFrom ≤ k then some (errVal s (sweep (P1 k) (P2 k) s).1) else none) ∧
+    QGen.C05.branchLiteral = "eq_ineq" := ⟨rfl, rfl, rfl, rfl⟩
+
 /-- C05.5 `dyk_obj_eq_var`: in the model the object-level and the variable-level routine are the same loop on the
 stacked vector (their constraint projections coincide by QProps.C04 `*_var_eq_obj_F`); for the two orders the loop only
 swaps the roles of the projections. -/
@@ -229,6 +388,12 @@ metric projection onto `State.Feas s` (from QProps.C04). -/
 theorem isProj_state_eq (s : K) : IsProj (State.Feas s) (peqState (n := N) s) := by
   intro u
   exact ⟨state_projEq_mem s u, fun z hz => le_of_eq (state_projEq_orth s u z hz)⟩
+
+-- non-vacuity of the convergence theorems: A = trace-one states (s = 1/2), P1 its projection, B = everything, P2 = id,
+-- x₀ = (3, −1), z = (1/2, 0), eps = 1, n = 8 (‖x₀ − z‖² = 29/4 < 8)
+example : ∃ j, 1 ≤ j ∧ j ≤ 8 ∧ errAt (fun _ => peqState (n := 2) (1/2 : Rat)) (fun _ => id) #v[3, -1] j < 1 :=
+  dyk_stop_exists (State.Feas (1/2)) (fun _ => True) _ _ (fun _ => isProj_state_eq _) (fun _ => isProj_univ)
+    #v[3, -1] #v[1/2, 0] (by intro i hi; fin_cases i <;> simp_all [Vec.get]) trivial 1 8 (by decide +kernel)
 
 -- non-vacuity: a concrete run of the model (K = ℚ, N = 2): P1 = State equality projection with s = 1/2,
 -- P2 = clipping of the second coordinate at 0; input (3, −1)
